@@ -58,6 +58,14 @@ Theorem C04_find_after_insert : forall t k v, find (insert t k v) k = v.
 Proof. exact find_after_insert. Qed.
 Print Assumptions C04_find_after_insert.
 
+(* after clear(key) EVERY non-zero signature of that slot finds nothing -- the
+   small ones included, e.g. (slot index, 0), which differ from the zeroed
+   stored key only in bits the slot index already fixes (no invariant needed) *)
+Theorem C04_find_after_clear_one : forall t k k', k' <> key0 ->
+  same_slot (tbits t) k' k = true -> find (clear_one t k) k' = [].
+Proof. intros t k k' Hk Hs. rewrite clear_one_refines by exact Hk. rewrite Hs. reflexivity. Qed.
+Print Assumptions C04_find_after_clear_one.
+
 (* save, then load into a fresh table: succeeds and preserves every lookup *)
 Theorem C04_save_load_fresh : forall t, Inv t ->
   exists t', load (save t) (fresh (tbits t)) = (true, t') /\ Inv t' /\ tbits t' = tbits t /\
@@ -118,6 +126,15 @@ Proof. vm_compute. repeat split. Qed.
 Example C04_nonvacuous_wrap :
   let t := insert (warp (fresh 2) 1) (1, 5) [7] in
   seal t = M32 - 1 /\ find t (1, 5) = [7] /\ seal (clear t) = 1 /\ find (clear (clear t)) (1, 5) = [].
+Proof. vm_compute. repeat split. Qed.
+
+(* the boundary of `k' <> key0`: clear(key) leaves a zeroed key, a live seal
+   and the old fitness; the signature (slot index, 0) still finds nothing,
+   whereas the excluded empty signature on slot 0 would see the stale value *)
+Example C04_nonvacuous_clear_one_small_key :
+  find (clear_one (insert (fresh 3) (11, 7) [9]) (11, 7)) (3, 0) = [] /\
+  same_slot 3 (3, 0) (11, 7) = true /\
+  find (clear_one (insert (fresh 3) (8, 7) [9]) (8, 7)) key0 = [9].
 Proof. vm_compute. repeat split. Qed.
 
 (* the proxy hypotheses are satisfiable with two individuals sharing a
